@@ -90,12 +90,12 @@ type c10Kube0 struct {
 	Selector                   *metav1.LabelSelector
 }
 
-type omap = map[string]any
+type c10Omap = map[string]any
 
-func lsMap(ls *metav1.LabelSelector) omap {
-	m := omap{}
+func c10LsMap(ls *metav1.LabelSelector) c10Omap {
+	m := c10Omap{}
 	if ls.MatchLabels != nil {
-		ml := omap{}
+		ml := c10Omap{}
 		for k, v := range ls.MatchLabels {
 			ml[k] = v
 		}
@@ -104,7 +104,7 @@ func lsMap(ls *metav1.LabelSelector) omap {
 	if ls.MatchExpressions != nil {
 		var es []any
 		for _, e := range ls.MatchExpressions {
-			em := omap{"key": e.Key, "operator": string(e.Operator)}
+			em := c10Omap{"key": e.Key, "operator": string(e.Operator)}
 			if e.Values != nil {
 				vs := []any{}
 				for _, v := range e.Values {
@@ -119,7 +119,7 @@ func lsMap(ls *metav1.LabelSelector) omap {
 	return m
 }
 
-func strs(xs []string) []any {
+func c10Strs(xs []string) []any {
 	out := []any{}
 	for _, x := range xs {
 		out = append(out, x)
@@ -127,8 +127,8 @@ func strs(xs []string) []any {
 	return out
 }
 
-func (k c10Kube) toMap() omap {
-	m := omap{"kind": k.Kind}
+func (k c10Kube) toMap() c10Omap {
+	m := c10Omap{"kind": k.Kind}
 	if k.Name != "" {
 		m["name"] = k.Name
 	}
@@ -136,10 +136,10 @@ func (k c10Kube) toMap() omap {
 		m["apiVersion"] = k.ApiVersion
 	}
 	if k.ExecEvents != nil {
-		m["executeHookOnEvent"] = strs(*k.ExecEvents)
+		m["executeHookOnEvent"] = c10Strs(*k.ExecEvents)
 	}
 	if k.WatchEvents != nil {
-		m["watchEvent"] = strs(*k.WatchEvents)
+		m["watchEvent"] = c10Strs(*k.WatchEvents)
 	}
 	if k.Sync != nil {
 		m["executeHookOnSynchronization"] = *k.Sync
@@ -151,25 +151,25 @@ func (k c10Kube) toMap() omap {
 		m["keepFullObjectsInMemory"] = *k.Keep
 	}
 	if k.NameSel != nil {
-		m["nameSelector"] = omap{"matchNames": strs(*k.NameSel)}
+		m["nameSelector"] = c10Omap{"matchNames": c10Strs(*k.NameSel)}
 	}
 	if k.LabelSel != nil {
-		m["labelSelector"] = lsMap(k.LabelSel)
+		m["labelSelector"] = c10LsMap(k.LabelSel)
 	}
 	if k.FieldSel != nil {
 		es := []any{}
 		for _, e := range *k.FieldSel {
-			es = append(es, omap{"field": e.Field, "operator": e.Operator, "value": e.Value})
+			es = append(es, c10Omap{"field": e.Field, "operator": e.Operator, "value": e.Value})
 		}
-		m["fieldSelector"] = omap{"matchExpressions": es}
+		m["fieldSelector"] = c10Omap{"matchExpressions": es}
 	}
 	if k.NsNames != nil || k.NsLabelSel != nil {
-		ns := omap{}
+		ns := c10Omap{}
 		if k.NsNames != nil {
-			ns["nameSelector"] = omap{"matchNames": strs(*k.NsNames)}
+			ns["nameSelector"] = c10Omap{"matchNames": c10Strs(*k.NsNames)}
 		}
 		if k.NsLabelSel != nil {
-			ns["labelSelector"] = lsMap(k.NsLabelSel)
+			ns["labelSelector"] = c10LsMap(k.NsLabelSel)
 		}
 		m["namespace"] = ns
 	}
@@ -183,7 +183,7 @@ func (k c10Kube) toMap() omap {
 		m["allowFailure"] = *k.AllowFailure
 	}
 	if len(k.Includes) > 0 {
-		m["includeSnapshotsFrom"] = strs(k.Includes)
+		m["includeSnapshotsFrom"] = c10Strs(k.Includes)
 	}
 	if k.Queue != "" {
 		m["queue"] = k.Queue
@@ -194,8 +194,8 @@ func (k c10Kube) toMap() omap {
 	return m
 }
 
-func (s c10Sched) toMap() omap {
-	m := omap{"crontab": s.Crontab}
+func (s c10Sched) toMap() c10Omap {
+	m := c10Omap{"crontab": s.Crontab}
 	if s.Name != "" {
 		m["name"] = s.Name
 	}
@@ -203,7 +203,7 @@ func (s c10Sched) toMap() omap {
 		m["allowFailure"] = *s.AllowFailure
 	}
 	if len(s.Includes) > 0 {
-		m["includeSnapshotsFrom"] = strs(s.Includes)
+		m["includeSnapshotsFrom"] = c10Strs(s.Includes)
 	}
 	if s.Queue != "" {
 		m["queue"] = s.Queue
@@ -214,23 +214,23 @@ func (s c10Sched) toMap() omap {
 	return m
 }
 
-func jsonRound(v any) any {
+func c10JsonRound(v any) any {
 	b, _ := json.Marshal(v)
 	var out any
 	_ = json.Unmarshal(b, &out)
 	return out
 }
 
-func (a c10Adm) toMap() omap {
-	m := omap{"name": a.Name}
+func (a c10Adm) toMap() c10Omap {
+	m := c10Omap{"name": a.Name}
 	if len(a.Includes) > 0 {
-		m["includeSnapshotsFrom"] = strs(a.Includes)
+		m["includeSnapshotsFrom"] = c10Strs(a.Includes)
 	}
 	if a.Group != "" {
 		m["group"] = a.Group
 	}
 	if a.Rules != nil {
-		m["rules"] = jsonRound(a.Rules)
+		m["rules"] = c10JsonRound(a.Rules)
 	}
 	if a.FailurePolicy != "" {
 		m["failurePolicy"] = a.FailurePolicy
@@ -242,25 +242,25 @@ func (a c10Adm) toMap() omap {
 		m["timeoutSeconds"] = *a.Timeout
 	}
 	if a.LabelSel != nil {
-		m["labelSelector"] = lsMap(a.LabelSel)
+		m["labelSelector"] = c10LsMap(a.LabelSel)
 	}
 	if a.NsLabelSel != nil {
-		m["namespace"] = omap{"labelSelector": lsMap(a.NsLabelSel)}
+		m["namespace"] = c10Omap{"labelSelector": c10LsMap(a.NsLabelSel)}
 	}
 	if a.MatchCond != nil {
-		m["matchConditions"] = jsonRound(a.MatchCond)
+		m["matchConditions"] = c10JsonRound(a.MatchCond)
 	}
 	return m
 }
 
-func (c c10Conv) toMap() omap {
+func (c c10Conv) toMap() c10Omap {
 	rs := []any{}
 	for _, r := range c.Rules {
-		rs = append(rs, omap{"fromVersion": r[0], "toVersion": r[1]})
+		rs = append(rs, c10Omap{"fromVersion": r[0], "toVersion": r[1]})
 	}
-	m := omap{"name": c.Name, "crdName": c.CrdName, "conversions": rs}
+	m := c10Omap{"name": c.Name, "crdName": c.CrdName, "conversions": rs}
 	if len(c.Includes) > 0 {
-		m["includeSnapshotsFrom"] = strs(c.Includes)
+		m["includeSnapshotsFrom"] = c10Strs(c.Includes)
 	}
 	if c.Group != "" {
 		m["group"] = c.Group
@@ -268,8 +268,8 @@ func (c c10Conv) toMap() omap {
 	return m
 }
 
-func (d c10Doc) toMap() omap {
-	m := omap{}
+func (d c10Doc) toMap() c10Omap {
+	m := c10Omap{}
 	if d.V0 {
 		if d.OnStartup != nil {
 			m["onStartup"] = *d.OnStartup
@@ -277,7 +277,7 @@ func (d c10Doc) toMap() omap {
 		if len(d.Scheds) > 0 {
 			var l []any
 			for _, s := range d.Scheds {
-				sm := omap{"crontab": s.Crontab}
+				sm := c10Omap{"crontab": s.Crontab}
 				if s.Name != "" {
 					sm["name"] = s.Name
 				}
@@ -291,12 +291,12 @@ func (d c10Doc) toMap() omap {
 		if len(d.Kubes0) > 0 {
 			var l []any
 			for _, k := range d.Kubes0 {
-				km := omap{"kind": k.Kind}
+				km := c10Omap{"kind": k.Kind}
 				if k.Name != "" {
 					km["name"] = k.Name
 				}
 				if k.Events != nil {
-					km["event"] = strs(k.Events)
+					km["event"] = c10Strs(k.Events)
 				}
 				if k.ObjectName != "" {
 					km["objectName"] = k.ObjectName
@@ -308,14 +308,14 @@ func (d c10Doc) toMap() omap {
 					km["allowFailure"] = true
 				}
 				if k.NsNames != nil || k.NsAny {
-					ns := omap{"any": k.NsAny}
+					ns := c10Omap{"any": k.NsAny}
 					if k.NsNames != nil {
-						ns["matchNames"] = strs(*k.NsNames)
+						ns["matchNames"] = c10Strs(*k.NsNames)
 					}
 					km["namespaceSelector"] = ns
 				}
 				if k.Selector != nil {
-					km["selector"] = lsMap(k.Selector)
+					km["selector"] = c10LsMap(k.Selector)
 				}
 				l = append(l, km)
 			}
@@ -325,7 +325,7 @@ func (d c10Doc) toMap() omap {
 	}
 	m["configVersion"] = "v1"
 	if d.Settings != nil {
-		m["settings"] = omap{"executionMinInterval": d.Settings.Interval, "executionBurst": d.Settings.Burst}
+		m["settings"] = c10Omap{"executionMinInterval": d.Settings.Interval, "executionBurst": d.Settings.Burst}
 	}
 	if d.OnStartup != nil {
 		m["onStartup"] = *d.OnStartup
@@ -370,48 +370,48 @@ func (d c10Doc) toMap() omap {
 
 // ------------------------------------------------------------------ tokens of the line protocol
 
-func tokStr(s string) string {
+func c10TokStr(s string) string {
 	if s == "" {
 		return "_"
 	}
 	return strings.NewReplacer(" ", "+", "\t", "+", "\n", "+").Replace(s)
 }
-// tokCron keeps the crontab text exact: only the blank is replaced (by `␣`).
-func tokCron(s string) string {
+// c10TokCron keeps the crontab text exact: only the blank is replaced (by `␣`).
+func c10TokCron(s string) string {
 	if s == "" {
 		return "_"
 	}
 	return strings.ReplaceAll(s, " ", "␣")
 }
-func tokList(xs []string) string {
+func c10TokList(xs []string) string {
 	if len(xs) == 0 {
 		return "-"
 	}
 	ys := make([]string, len(xs))
 	for i, x := range xs {
-		ys[i] = tokStr(x)
+		ys[i] = c10TokStr(x)
 	}
 	return strings.Join(ys, ",")
 }
-func tokOptList(xs *[]string) string {
+func c10TokOptList(xs *[]string) string {
 	if xs == nil {
 		return "~"
 	}
-	return tokList(*xs)
+	return c10TokList(*xs)
 }
-func tokBit(b bool) string {
+func c10TokBit(b bool) string {
 	if b {
 		return "1"
 	}
 	return "0"
 }
-func tokOptBoolStr(b *bool) string { // the value after decoding into a Go string field
+func c10TokOptBoolStr(b *bool) string { // the value after decoding into a Go string field
 	if b == nil {
 		return "_"
 	}
 	return strconv.FormatBool(*b)
 }
-func digest(v any) string {
+func c10Digest(v any) string {
 	b, _ := json.Marshal(v)
 	h := sha1.Sum(b)
 	return hex.EncodeToString(h[:5])
@@ -431,7 +431,7 @@ type c10KubePT struct {
 	NsLabelSel           *metav1.LabelSelector
 }
 
-func normLS(ls *metav1.LabelSelector) *metav1.LabelSelector {
+func c10NormLS(ls *metav1.LabelSelector) *metav1.LabelSelector {
 	if ls == nil {
 		return nil
 	}
@@ -450,7 +450,7 @@ func normLS(ls *metav1.LabelSelector) *metav1.LabelSelector {
 }
 
 func (k c10Kube) pt() string {
-	p := c10KubePT{Kind: k.Kind, ApiVersion: k.ApiVersion, Jq: k.Jq, LabelSel: normLS(k.LabelSel), NsLabelSel: normLS(k.NsLabelSel)}
+	p := c10KubePT{Kind: k.Kind, ApiVersion: k.ApiVersion, Jq: k.Jq, LabelSel: c10NormLS(k.LabelSel), NsLabelSel: c10NormLS(k.NsLabelSel)}
 	if k.NameSel != nil {
 		p.HasNameSel, p.NameSel = true, append([]string{}, *k.NameSel...)
 	}
@@ -460,11 +460,11 @@ func (k c10Kube) pt() string {
 	if k.NsNames != nil {
 		p.HasNsNames, p.NsNames = true, append([]string{}, *k.NsNames...)
 	}
-	return digest(p)
+	return c10Digest(p)
 }
 
-func monitorPT(m *kubeeventsmanager.MonitorConfig) string {
-	p := c10KubePT{Kind: m.Kind, ApiVersion: m.ApiVersion, Jq: m.JqFilter, LabelSel: normLS(m.LabelSelector)}
+func c10MonitorPT(m *kubeeventsmanager.MonitorConfig) string {
+	p := c10KubePT{Kind: m.Kind, ApiVersion: m.ApiVersion, Jq: m.JqFilter, LabelSel: c10NormLS(m.LabelSelector)}
 	if m.NameSelector != nil {
 		p.HasNameSel, p.NameSel = true, append([]string{}, m.NameSelector.MatchNames...)
 	}
@@ -479,9 +479,9 @@ func monitorPT(m *kubeeventsmanager.MonitorConfig) string {
 		if m.NamespaceSelector.NameSelector != nil {
 			p.HasNsNames, p.NsNames = true, append([]string{}, m.NamespaceSelector.NameSelector.MatchNames...)
 		}
-		p.NsLabelSel = normLS(m.NamespaceSelector.LabelSelector)
+		p.NsLabelSel = c10NormLS(m.NamespaceSelector.LabelSelector)
 	}
-	return digest(p)
+	return c10Digest(p)
 }
 
 type c10AdmPT struct {
@@ -492,7 +492,7 @@ type c10AdmPT struct {
 }
 
 func (a c10Adm) pt() string {
-	return digest(c10AdmPT{Rules: a.Rules, ObjSel: normLS(a.LabelSel), NsSel: normLS(a.NsLabelSel), MatchCond: a.MatchCond})
+	return c10Digest(c10AdmPT{Rules: a.Rules, ObjSel: c10NormLS(a.LabelSel), NsSel: c10NormLS(a.NsLabelSel), MatchCond: a.MatchCond})
 }
 
 type c10ConvPT struct {
@@ -500,7 +500,7 @@ type c10ConvPT struct {
 	Rules [][2]string
 }
 
-func (c c10Conv) pt() string { return digest(c10ConvPT{c.CrdName, append([][2]string{}, c.Rules...)}) }
+func (c c10Conv) pt() string { return c10Digest(c10ConvPT{c.CrdName, append([][2]string{}, c.Rules...)}) }
 
 // ------------------------------------------------------------------ parser oracles
 
@@ -565,10 +565,10 @@ func (d c10Doc) declLines(policy string) []string {
 			out = append(out, fmt.Sprintf("onstartup %d", *d.OnStartup))
 		}
 		for _, s := range d.Scheds {
-			out = append(out, fmt.Sprintf("sched0 name=%s c=%s cok=%s af=%s", tokStr(s.Name), tokCron(s.Crontab), tokBit(c10ParseOK(s.Crontab)), tokBit(s.AllowFailure != nil && *s.AllowFailure)))
+			out = append(out, fmt.Sprintf("sched0 name=%s c=%s cok=%s af=%s", c10TokStr(s.Name), c10TokCron(s.Crontab), c10TokBit(c10ParseOK(s.Crontab)), c10TokBit(s.AllowFailure != nil && *s.AllowFailure)))
 		}
 		for _, k := range d.Kubes0 {
-			out = append(out, fmt.Sprintf("kube0 name=%s ev=%s af=%s pt=%s", tokStr(k.Name), tokList(k.Events), tokBit(k.AllowFailure), k.pt()))
+			out = append(out, fmt.Sprintf("kube0 name=%s ev=%s af=%s pt=%s", c10TokStr(k.Name), c10TokList(k.Events), c10TokBit(k.AllowFailure), k.pt()))
 		}
 		return out
 	}
@@ -596,14 +596,14 @@ func (d c10Doc) declLines(policy string) []string {
 			}
 		}
 		out = append(out, fmt.Sprintf("kube name=%s av=%s ls=%s fs=%s nsne=%s fson=%s ee=%s we=%s sync=%s wait=%s keep=%s af=%s inc=%s q=%s g=%s pt=%s",
-			tokStr(k.Name), tokBit(c10ApiVersionOK(k.ApiVersion)), tokBit(c10LabelSelOK(k.LabelSel)), tokBit(c10FieldSelOK(k.FieldSel)),
-			tokBit(k.NameSel != nil && len(*k.NameSel) > 0), tokBit(fson), tokOptList(k.ExecEvents), tokOptList(k.WatchEvents),
-			tokOptBoolStr(k.Sync), tokOptBoolStr(k.Wait), tokOptBoolStr(k.Keep), tokBit(k.AllowFailure != nil && *k.AllowFailure),
-			tokList(k.Includes), tokStr(k.Queue), tokStr(k.Group), k.pt()))
+			c10TokStr(k.Name), c10TokBit(c10ApiVersionOK(k.ApiVersion)), c10TokBit(c10LabelSelOK(k.LabelSel)), c10TokBit(c10FieldSelOK(k.FieldSel)),
+			c10TokBit(k.NameSel != nil && len(*k.NameSel) > 0), c10TokBit(fson), c10TokOptList(k.ExecEvents), c10TokOptList(k.WatchEvents),
+			c10TokOptBoolStr(k.Sync), c10TokOptBoolStr(k.Wait), c10TokOptBoolStr(k.Keep), c10TokBit(k.AllowFailure != nil && *k.AllowFailure),
+			c10TokList(k.Includes), c10TokStr(k.Queue), c10TokStr(k.Group), k.pt()))
 	}
 	for _, s := range d.Scheds {
-		out = append(out, fmt.Sprintf("sched name=%s c=%s cok=%s af=%s inc=%s q=%s g=%s", tokStr(s.Name), tokCron(s.Crontab), tokBit(c10ParseOK(s.Crontab)),
-			tokBit(s.AllowFailure != nil && *s.AllowFailure), tokList(s.Includes), tokStr(s.Queue), tokStr(s.Group)))
+		out = append(out, fmt.Sprintf("sched name=%s c=%s cok=%s af=%s inc=%s q=%s g=%s", c10TokStr(s.Name), c10TokCron(s.Crontab), c10TokBit(c10ParseOK(s.Crontab)),
+			c10TokBit(s.AllowFailure != nil && *s.AllowFailure), c10TokList(s.Includes), c10TokStr(s.Queue), c10TokStr(s.Group)))
 	}
 	adm := func(kind string, a c10Adm) string {
 		fp, sf, to := "~", "~", "~"
@@ -616,8 +616,8 @@ func (d c10Doc) declLines(policy string) []string {
 		if a.Timeout != nil {
 			to = fmt.Sprint(*a.Timeout)
 		}
-		return fmt.Sprintf("%s name=%s inc=%s g=%s ls=%s ns=%s fp=%s sf=%s to=%s wok=%s pt=%s", kind, tokStr(a.Name), tokList(a.Includes), tokStr(a.Group),
-			tokBit(c10LabelSelOK(a.LabelSel)), tokBit(c10LabelSelOK(a.NsLabelSel)), fp, sf, to, tokBit(c10WebhookOK(a)), a.pt())
+		return fmt.Sprintf("%s name=%s inc=%s g=%s ls=%s ns=%s fp=%s sf=%s to=%s wok=%s pt=%s", kind, c10TokStr(a.Name), c10TokList(a.Includes), c10TokStr(a.Group),
+			c10TokBit(c10LabelSelOK(a.LabelSel)), c10TokBit(c10LabelSelOK(a.NsLabelSel)), fp, sf, to, c10TokBit(c10WebhookOK(a)), a.pt())
 	}
 	for _, a := range d.Validating {
 		out = append(out, adm("val", a))
@@ -626,13 +626,13 @@ func (d c10Doc) declLines(policy string) []string {
 		out = append(out, adm("mut", a))
 	}
 	for _, c := range d.Convs {
-		out = append(out, fmt.Sprintf("conv name=%s inc=%s g=%s pt=%s", tokStr(c.Name), tokList(c.Includes), tokStr(c.Group), c.pt()))
+		out = append(out, fmt.Sprintf("conv name=%s inc=%s g=%s pt=%s", c10TokStr(c.Name), c10TokList(c.Includes), c10TokStr(c.Group), c.pt()))
 	}
 	return out
 }
 
 func (k c10Kube0) pt() string {
-	p := c10KubePT{Kind: k.Kind, Jq: k.Jq, LabelSel: normLS(k.Selector)}
+	p := c10KubePT{Kind: k.Kind, Jq: k.Jq, LabelSel: c10NormLS(k.Selector)}
 	if k.ObjectName != "" {
 		p.HasNameSel, p.NameSel = true, []string{k.ObjectName}
 	}
@@ -643,5 +643,5 @@ func (k c10Kube0) pt() string {
 			p.NsNames = append(p.NsNames, *k.NsNames...)
 		}
 	}
-	return digest(p)
+	return c10Digest(p)
 }
